@@ -54,8 +54,34 @@ def plan_c01(tier, seed):
     return {"runs": runs}
 
 
+def e1_plan(obs_map, obs_set, alpha="structural", quick_types=ALL, canonical_obs=None, thorough_extra=None, set_alpha=None, kinds=("map", "set")):
+    """generic E1 plan: U2 hi+lo on `quick_types` in the quick tier; U3 / comb5 / all types in the thorough tier"""
+    def f(tier, seed):
+        types = ALL if tier == "thorough" else quick_types
+        runs = grid(list(kinds), types, ["U2"], ["hi", "lo"], alpha, obs_map, obs_set, deep=(tier == "thorough"))
+        if canonical_obs is not None:
+            runs += grid(["map"], types, ["U2"], ["hi", "lo"], "canonical", canonical_obs)
+        if tier == "thorough":
+            runs += grid(["map"], ["u8", "u32"], ["U3"], ["hi"], "structural", obs_map, threads=8, retain_all=False)
+            runs += grid(list(kinds), REP7, ["comb5"], ["hi"], "structural", obs_map, obs_set, retain_all=False)
+            if canonical_obs is not None:
+                runs += grid(["map"], ["u8", "Ipv6Net"], ["U3"], ["hi"], "canonical", canonical_obs, threads=4)
+            if thorough_extra:
+                runs += thorough_extra()
+        return {"runs": runs}
+    return f
+
+
 PLANS = {
     "C01": plan_c01,
+    "C02": e1_plan(["lpm"], ["lookups"]),
+    "C03": e1_plan(["iters"], ["iters"]),
+    "C04": e1_plan([], [], alpha="full"),
+    "C09": e1_plan(["cover"], ["lookups"]),
+    "C10": e1_plan(["children"], ["lookups"], alpha="full"),
+    "C11": e1_plan(["views"], ["views"], canonical_obs=["views"]),
+    "C12": e1_plan(["find"], [], quick_types=REP7, kinds=("map",)),
+    "C15": e1_plan(["wf"], [], alpha="full", canonical_obs=["wf"], kinds=("map",)),
 }
 
 
